@@ -14,19 +14,26 @@
 
 namespace verif
 {
-    struct handler_counts { long oom = 0, bad_size = 0, leak = 0, invalid = 0, overflow = 0; long leak_amount = 0; };
+    struct handler_counts { long oom = 0, bad_size = 0, leak = 0, invalid = 0, overflow = 0; long leak_amount = 0; std::vector<long> leak_amounts; std::vector<std::string> leak_names; };
     inline handler_counts& hc() { static handler_counts h; return h; }
     inline std::string& last_handler_info() { static std::string s; return s; }
 
     inline void h_oom(const foonathan::memory::allocator_info& info, std::size_t amount) noexcept { ++hc().oom; }
     inline void h_bad(const foonathan::memory::allocator_info& info, std::size_t passed, std::size_t supported) noexcept { ++hc().bad_size; }
-    inline void h_leak(const foonathan::memory::allocator_info& info, std::ptrdiff_t amount) noexcept { ++hc().leak; hc().leak_amount += amount; }
+    inline void h_leak(const foonathan::memory::allocator_info& info, std::ptrdiff_t amount) noexcept { ++hc().leak; hc().leak_amount += amount; hc().leak_amounts.push_back(long(amount)); hc().leak_names.push_back(info.name); }
 
     inline void install_quiet_handlers()
     {
         foonathan::memory::out_of_memory::set_handler(h_oom);
         foonathan::memory::bad_allocation_size::set_handler(h_bad);
         foonathan::memory::set_leak_handler(h_leak);
+    }
+
+    inline std::string leak_list()
+    {
+        std::string s = "[";
+        for (std::size_t i = 0; i < hc().leak_amounts.size(); ++i) { if (i) s += ","; s += std::to_string(hc().leak_amounts[i]); }
+        return s + "]";
     }
 
     // classify the in-flight exception into the small enum the models use
